@@ -81,6 +81,7 @@ type EngineConfig struct {
 	POOG        float64 `json:"p_oog"`
 	PRestart    float64 `json:"p_restart"`
 	PCrash      float64 `json:"p_crash"`
+	PFailTail   float64 `json:"p_fail_tail"`
 	DeltaMode   string  `json:"delta_mode"`
 	FaultFree   bool    `json:"fault_free"`
 	OneTxBlocks bool    `json:"one_tx_blocks"`
